@@ -147,7 +147,70 @@ def run_impl(prop, cases, rundir, tag="cases"):
     data = json.load(open(rpath))
     if "import_error" in data:
         return None, "cannot import score_analysis: " + data["import_error"]
+    for f, lines in data.get("executed", {}).items():
+        EXECUTED.setdefault(f, set()).update(lines)
     return data["results"], None
+
+
+EXECUTED = {}
+
+
+def anchored_coverage(prop):
+    """Statement coverage of the functions the property is anchored in (properties.jsonl line ranges are
+    re-located by function name through the first commit of /repo, so that edits do not shift them)."""
+    import ast
+    try:
+        rec = next(json.loads(l) for l in open(os.path.join(VERIF, "properties.jsonl")) if json.loads(l)["id"] == prop)
+        root = sh(["git", "-C", REPO, "rev-list", "--max-parents=0", "HEAD"]).stdout.split()[0]
+    except Exception:
+        return {}
+    out = {}
+    for mech in rec["anchors"]["mechanism"]:
+        where = mech.get("where", "")
+        if ":" not in where:
+            continue
+        path, ranges = where.split(":", 1)
+        old = sh(["git", "-C", REPO, "show", f"{root}:{path}"]).stdout
+        try:
+            new = open(os.path.join(REPO, path)).read()
+            told, tnew = ast.parse(old), ast.parse(new)
+        except Exception:
+            continue
+        spans = []
+        for r in ranges.split(","):
+            a, _, b = r.partition("-")
+            spans.append((int(a), int(b or a)))
+
+        def funcs(tree):
+            res = {}
+            def visit(node, prefix):
+                for ch in ast.iter_child_nodes(node):
+                    if isinstance(ch, (ast.FunctionDef, ast.ClassDef)):
+                        name = prefix + ch.name
+                        if isinstance(ch, ast.FunctionDef):
+                            res[name] = ch
+                        visit(ch, name + ".")
+            visit(tree, "")
+            return res
+        fo, fnw = funcs(told), funcs(tnew)
+        names = [n for n, f in fo.items() if any(f.lineno <= hi and lo <= f.end_lineno for lo, hi in spans)
+                 and not any(m != n and m.startswith(n + ".") and any(fo[m].lineno <= hi and lo <= fo[m].end_lineno for lo, hi in spans) and False for m in fo)]
+        rel = path.split("score_analysis/", 1)[-1]
+        done = EXECUTED.get(rel, set())
+        for n in names:
+            f = fnw.get(n)
+            if f is None:
+                out[f"{path}:{n}"] = {"missing_in_current_source": True}
+                continue
+            stmts = set()
+            for node in ast.walk(f):
+                if isinstance(node, ast.stmt) and node is not f and not isinstance(node, (ast.FunctionDef, ast.ClassDef)):
+                    if isinstance(node, ast.Expr) and isinstance(node.value, ast.Constant) and isinstance(node.value.value, str):
+                        continue
+                    stmts.add(node.lineno)
+            hit = stmts & done
+            out[f"{path}:{n}"] = {"statements": len(stmts), "executed": len(hit), "not_executed_lines": sorted(stmts - hit)[:25]}
+    return out
 
 
 # ---------------------------------------------------------------- known findings
@@ -415,6 +478,7 @@ def main(argv):
             "traces_validated_against_impl": coq_checked,
             "disagreements": len(disagreements),
             "input_distribution": dist,
+            "anchored_statement_coverage": anchored_coverage(prop),
             "broken_obligations": [b[0] for b in broken],
             "known_findings_reproduced": sorted(known_hits),
             "notes": notes,
